@@ -328,9 +328,13 @@ func (h *h5State) stateTagOpen() bool {
 		h.pos++
 		return h.stateBogusComment2()
 	case (ch >= 'a' && ch <= 'z') || (ch >= 'A' && ch <= 'Z'):
+		// a start tag: an earlier end tag that did not end directly behind
+		// its name ("</p >", "</p x=y>") leaves the flag set
+		h.isClose = false
 		return h.stateTagName()
 	case ch == byteNull:
 		// IE-ism NULL characters are ignored
+		h.isClose = false
 		return h.stateTagName()
 	default:
 		// user input mistake in configuring state
